@@ -294,10 +294,17 @@ def judge_class(case):
     if not j.check(not raised(r), "class-run-raises", lambda: f"{r!r}"):
         return j
     res = alg.result
-    t = {"Fn": np.asarray(res.Fn_poles), "Xi": np.asarray(res.Xi_poles), "Phi": np.asarray(res.Phi_poles),
-         "Fn_cov": getattr(res, "Fn_poles_cov", None), "Xi_cov": getattr(res, "Xi_poles_cov", None), "Phi_cov": None}
+    # copies: the model works on the tables as they were after the run, and the tables must survive every extraction
+    t = {"Fn": np.array(res.Fn_poles), "Xi": np.array(res.Xi_poles), "Phi": np.array(res.Phi_poles),
+         "Fn_cov": None if getattr(res, "Fn_poles_cov", None) is None else np.array(res.Fn_poles_cov),
+         "Xi_cov": None if getattr(res, "Xi_poles_cov", None) is None else np.array(res.Xi_poles_cov), "Phi_cov": None}
     Fn = t["Fn"]
-    Lab = np.asarray(res.Lab)
+    Lab = np.array(res.Lab)
+
+    def _tables_intact():
+        ok = np.array_equal(np.asarray(res.Fn_poles), t["Fn"], equal_nan=True) and np.array_equal(np.asarray(res.Xi_poles), t["Xi"], equal_nan=True)
+        ok = ok and np.array_equal(np.asarray(res.Phi_poles), t["Phi"], equal_nan=True) and np.array_equal(np.asarray(res.Lab), Lab, equal_nan=True)
+        return j.check(ok, "class-tables-changed", "mpe changed the pole / label tables of the result (a later extraction on the same object sees other poles)")
     rtol = case["rtol"]
     req = sorted(float(f) for f in S.fn)
     if case["extra_req"]:
@@ -323,6 +330,8 @@ def judge_class(case):
         r = sut(ss.mpe, "a", sel_freq=_selform(req, case.get("selform", "list")), order="find_min", rtol=rtol)
         if not j.check(not raised(r), "class-fm-raises", lambda: f"{r!r}"):
             return j
+        if not _tables_intact():
+            return j
         if c is None:
             j.skip("no-order-qualifies")
             return j
@@ -343,6 +352,8 @@ def judge_class(case):
         exp = model_explicit(Fn, req, orders, rtol)
         r = sut(ss.mpe, "a", sel_freq=_selform(req, case.get("selform", "list")), order=order, rtol=rtol)
         if not j.check(not raised(r), "class-raises", lambda: f"{r!r}"):
+            return j
+        if not _tables_intact():
             return j
         exp_rows = [e for e in exp if e is not None]
         exp_cols = [o for e, o in zip(exp, orders) if e is not None]
